@@ -48,6 +48,7 @@ type Op struct {
 // Case is a history.
 type Case struct {
 	Clients int  `json:"clients"`
+	MQTT    bool `json:"mqtt,omitempty"` // broker configured with the mqtt matcher (same depth, '+', trailing '#')
 	Ops     []Op `json:"ops"`
 }
 
@@ -62,13 +63,18 @@ var hotKeys = []string{"rw", "rw", "rw", "rw", "rw", "rw", "r", "w", "exp", "oth
 
 // genCase keeps a light generation-side picture of what is probably subscribed/linked so that unsubscribes hit live
 // filters and publishes hit subscribed channels often (construction instead of rejection); the oracle does not use it.
+var mqttFilters = []string{"a/#/", "a/b/#/", "+/#/", "#/", "a/+/#/"}
+
 func genCase(t *rapid.T) Case {
-	c := Case{Clients: rapid.IntRange(1, 4).Draw(t, "clients")}
+	c := Case{Clients: rapid.IntRange(1, 4).Draw(t, "clients"), MQTT: rapid.IntRange(0, 3).Draw(t, "mqtt") == 0}
 	n := rapid.IntRange(1, 40).Draw(t, "nops")
 	live := make([][]string, c.Clients)
 	links := make([][]string, c.Clients)
 	genTopic := func(cl int, unsub bool) Topic {
 		f := rapid.SampledFrom(goodFilters).Draw(t, "f")
+		if c.MQTT && rapid.IntRange(0, 2).Draw(t, "hashf") == 0 {
+			f = rapid.SampledFrom(mqttFilters).Draw(t, "mf")
+		}
 		if unsub && len(live[cl]) > 0 && rapid.IntRange(0, 3).Draw(t, "hit") > 0 {
 			f = rapid.SampledFrom(live[cl]).Draw(t, "lf")
 		}
@@ -89,7 +95,7 @@ func genCase(t *rapid.T) Case {
 			for j, m := 0, rapid.IntRange(1, 3).Draw(t, "ntopics"); j < m; j++ {
 				tp := genTopic(op.C, false)
 				op.Topics = append(op.Topics, tp)
-				if canRead(tp.K) && inList(goodFilters, tp.F) {
+				if canRead(tp.K) && validFilter(tp.F) {
 					live[op.C] = append(live[op.C], tp.F)
 				}
 			}
@@ -148,15 +154,24 @@ func genCase(t *rapid.T) Case {
 // ---------------------------------------------------------------------------------------------
 
 var shared *vkit.Broker
+var sharedMQTT bool
 var keys map[string]string
 
-func theBroker() *vkit.Broker {
+func theBroker(mqtt bool) *vkit.Broker {
+	if shared != nil && sharedMQTT != mqtt {
+		shared.Close()
+		shared = nil
+	}
 	if shared == nil {
-		b, err := vkit.NewBroker(vkit.BrokerOpts{})
+		matcher := ""
+		if mqtt {
+			matcher = "mqtt"
+		}
+		b, err := vkit.NewBroker(vkit.BrokerOpts{Matcher: matcher})
 		if err != nil {
 			panic(err)
 		}
-		shared = b
+		shared, sharedMQTT = b, mqtt
 		keys = map[string]string{
 			"rw":    b.Key("#/", security.AllowReadWrite),
 			"r":     b.Key("#/", security.AllowRead),
@@ -195,7 +210,7 @@ type mclient struct {
 }
 
 func run(c Case) (res vkit.Result) {
-	b := theBroker()
+	b := theBroker(c.MQTT)
 	tr := b.S.VerifTrie()
 	if n, _, _ := tr.VerifDump(); tr.Count() != 0 || n != 1 {
 		shared = nil // never reuse a broker whose baseline is off
@@ -392,7 +407,7 @@ func run(c Case) (res vkit.Result) {
 				want := 0
 				if accepted {
 					for f := range o.subs {
-						if vkit.MatchStr(false, f, ch) {
+						if vkit.MatchStr(c.MQTT, f, ch) {
 							want = 1
 						}
 					}
@@ -438,6 +453,9 @@ func run(c Case) (res vkit.Result) {
 				}
 				if want == 1 {
 					labels["delivered"] = true
+					if c.MQTT {
+						labels["delivered-mqtt-mode"] = true
+					}
 					if len(o.subs) >= 2 && effUnsub {
 						nontrivial = true
 					}
